@@ -345,6 +345,9 @@ func runC09(r *Report) {
 			}
 			for _, row := range m.Rows {
 				nRows++
+				for _, pr := range row.Problems {
+					codec = append(codec, row.In+" "+row.Key+": "+pr)
+				}
 				if row.In == "path" {
 					cliPath = append(cliPath, row)
 					continue
